@@ -115,11 +115,25 @@ def exec_case(case):
             elif op == "bezier_curve":
                 e["ret"] = []
                 cv = BezierCurve([[float(c) for c in p] for p in ev["P"]])
-                e["ret"] = [rat(x, 10 ** 6) for x in cv.evaluate(ev["t"][0] / ev["t"][1])]
+                t_ = ev["t"][0] / ev["t"][1]
+                first = cv.evaluate(t_)
+                try:                      # what evaluate() returns is the caller's: overwriting it must not move the curve
+                    first *= 0.0
+                    first += 17.0
+                except Exception:
+                    pass
+                e["ret"] = [rat(x, 10 ** 6) for x in cv.evaluate(t_)]
             elif op == "bezier_patch":
                 e["ret"] = []
                 pa = BezierPatch([[[float(c) for c in p] for p in row] for row in ev["N"]])
-                e["ret"] = [rat(x, 10 ** 6) for x in pa.evaluate(ev["u"][0] / ev["u"][1], ev["v"][0] / ev["v"][1])]
+                u_, v_ = ev["u"][0] / ev["u"][1], ev["v"][0] / ev["v"][1]
+                first = pa.evaluate(u_, v_)
+                try:
+                    first *= 0.0
+                    first += 17.0
+                except Exception:
+                    pass
+                e["ret"] = [rat(x, 10 ** 6) for x in pa.evaluate(u_, v_)]
             elif op == "as_polyline":
                 e["V"], e["E"] = [], []
                 cv = BezierCurve([[float(c) for c in p] for p in ev["P"]])
